@@ -9,6 +9,7 @@
 package ceval
 
 import (
+	"strconv"
 	"bytes"
 	"fmt"
 	"go/ast"
@@ -799,6 +800,13 @@ func (in *Interp) expr(e ast.Expr, fr *frame) interface{} {
 				in.fail(Panic, "slice bounds out of range in %s", types.ExprString(x))
 			}
 			return b[lo:hi]
+		case *List:
+			// a slice header of its own over the same backing array: Go's own slices model Go's slices
+			lo, hi := get(x.Low, 0), get(x.High, int64(len(b.Elems)))
+			if lo < 0 || hi < lo || int(hi) > cap(b.Elems) {
+				in.fail(Panic, "slice bounds [%d:%d] out of range (len %d, cap %d) in %s", lo, hi, len(b.Elems), cap(b.Elems), types.ExprString(x))
+			}
+			return &List{Elems: b.Elems[lo:hi]}
 		}
 		in.fail(Unsupported, "slice of %T", base)
 	case *ast.CallExpr:
@@ -1073,6 +1081,65 @@ func (in *Interp) callExpr(c *ast.CallExpr, fr *frame) interface{} {
 					return int64(len(y.Elems))
 				}
 				in.fail(Unsupported, "len of this operand")
+			case "cap":
+				switch y := in.expr(c.Args[0], fr).(type) {
+				case *List:
+					return int64(cap(y.Elems))
+				case Bytes:
+					return int64(cap(y.B))
+				}
+				in.fail(Unsupported, "cap of this operand")
+			case "copy":
+				dst, src := in.expr(c.Args[0], fr), in.expr(c.Args[1], fr)
+				if d, ok := dst.(*List); ok {
+					if sl, ok := src.(*List); ok {
+						return int64(copy(d.Elems, sl.Elems))
+					}
+				}
+				in.fail(Unsupported, "copy of these operands")
+			case "make":
+				if tv, ok := fr.info.Types[c.Args[0]]; ok && tv.IsType() && len(c.Args) >= 2 {
+					if sl, ok := tv.Type.Underlying().(*types.Slice); ok {
+						n, ok1 := in.expr(c.Args[1], fr).(int64)
+						cp := n
+						if len(c.Args) == 3 {
+							cp, _ = in.expr(c.Args[2], fr).(int64)
+						}
+						if ok1 && n >= 0 && cp >= n && cp < 1<<20 {
+							if b, isB := sl.Elem().Underlying().(*types.Basic); isB && b.Kind() == types.Byte {
+								return Bytes{B: make([]byte, n, cp)}
+							}
+							l := &List{Elems: make([]interface{}, n, cp)}
+							for i := range l.Elems {
+								l.Elems[i] = zeroOf(sl.Elem())
+							}
+							return l
+						}
+					}
+				}
+				in.fail(Unsupported, "make of this type")
+			case "append":
+				if l, ok := in.expr(c.Args[0], fr).(*List); ok {
+					out := l.Elems
+					if c.Ellipsis.IsValid() && len(c.Args) == 2 {
+						if more, ok := in.expr(c.Args[1], fr).(*List); ok {
+							return &List{Elems: append(out, more.Elems...)}
+						}
+						in.fail(Unsupported, "append of this operand")
+					}
+					for _, a := range c.Args[1:] {
+						out = append(out, in.expr(a, fr))
+					}
+					return &List{Elems: out}
+				}
+				if _, isNil := in.expr(c.Args[0], fr).(Nil); isNil {
+					var out []interface{}
+					for _, a := range c.Args[1:] {
+						out = append(out, in.expr(a, fr))
+					}
+					return &List{Elems: out}
+				}
+				in.fail(Unsupported, "append to this operand")
 			case "panic":
 				in.fail(Panic, "explicit panic")
 			case "new":
@@ -1191,11 +1258,7 @@ func bindParams(ft *ast.FuncType, fr *frame, args []interface{}) {
 			case variadic:
 				l := &List{}
 				if i < len(args) {
-					if pre, ok := args[i].(*List); ok && len(args) == i+1 && false {
-						l = pre
-					} else {
-						l.Elems = append(l.Elems, args[i:]...)
-					}
+					l.Elems = append(l.Elems, args[i:]...)
 				}
 				fr.vars[fr.info.Defs[nm]] = l
 				i = len(args)
@@ -1297,6 +1360,61 @@ func (in *Interp) stdlib(fn *types.Func, args []interface{}) ([]interface{}, boo
 			return []interface{}{int64(strings.Index(a, b))}, true
 		case "EqualFold":
 			return []interface{}{strings.EqualFold(a, b)}, true
+		}
+	case "strings.TrimLeft", "strings.TrimRight", "strings.Trim", "strings.TrimPrefix", "strings.TrimSuffix":
+		a, ok1 := str(0)
+		b, ok2 := str(1)
+		if ok1 && ok2 {
+			switch fn.Name() {
+			case "TrimLeft":
+				return []interface{}{strings.TrimLeft(a, b)}, true
+			case "TrimRight":
+				return []interface{}{strings.TrimRight(a, b)}, true
+			case "Trim":
+				return []interface{}{strings.Trim(a, b)}, true
+			case "TrimPrefix":
+				return []interface{}{strings.TrimPrefix(a, b)}, true
+			case "TrimSuffix":
+				return []interface{}{strings.TrimSuffix(a, b)}, true
+			}
+		}
+	case "strings.Replace", "strings.ReplaceAll":
+		a, ok1 := str(0)
+		b, ok2 := str(1)
+		c, ok3 := str(2)
+		if ok1 && ok2 && ok3 {
+			n := int64(-1)
+			if fn.Name() == "Replace" && len(args) == 4 {
+				n, _ = args[3].(int64)
+			}
+			return []interface{}{strings.Replace(a, b, c, int(n))}, true
+		}
+	case "strconv.ParseInt", "strconv.ParseUint":
+		a, ok := str(0)
+		base, ok2 := args[1].(int64)
+		bits, ok3 := args[2].(int64)
+		if ok && ok2 && ok3 {
+			var v int64
+			var err error
+			if fn.Name() == "ParseInt" {
+				v, err = strconv.ParseInt(a, int(base), int(bits))
+			} else {
+				var u uint64
+				u, err = strconv.ParseUint(a, int(base), int(bits))
+				v = int64(u)
+			}
+			if err != nil {
+				return []interface{}{v, &Struct{Type: "error", Fields: map[string]interface{}{"msg": err.Error()}}}, true
+			}
+			return []interface{}{v, Nil{}}, true
+		}
+	case "strconv.Atoi":
+		if a, ok := str(0); ok {
+			v, err := strconv.Atoi(a)
+			if err != nil {
+				return []interface{}{int64(v), &Struct{Type: "error", Fields: map[string]interface{}{"msg": err.Error()}}}, true
+			}
+			return []interface{}{int64(v), Nil{}}, true
 		}
 	case "strings.ToLower", "strings.ToUpper", "strings.TrimSpace":
 		a, ok := str(0)
